@@ -13,6 +13,7 @@ def fuzz(harness, variant="fuzz", libs=(), quick=None, thorough=None, **kw):
 
 
 PROPS = {}
+_LOW_MASKS = ["none", "sse2,sse41,sse42", "sse2,sse41,sse42,avx,avx2"]
 NOT_APPLICABLE = {}
 HOOK_COMMITS = ["b0288d2"]
 
@@ -34,10 +35,12 @@ PROPS["C11"] = dict(
           "count not a multiple of 8). Distinct = distinct FNV-1a-64 of the serialised case."),
     assumptions=["inputs stay in each encoder's documented domain (values fit the bit width; carquet_bitpack_32 widths 0..32)",
                  "an encoder that returns a non-OK status makes the case vacuous (counted), not a failure",
-                 "clang ASan + UBSan (bounds, pointer-overflow, null, object-size ...) report any out-of-buffer access on exact-size heap blocks"],
+                 "clang ASan + UBSan (bounds, null, object-size ...) report any out-of-buffer access on exact-size heap blocks"],
     engines=[pbt("c11_encodings",
                  quick=dict(cases=20000, size=150, enum=1, procs=4),
-                 thorough=dict(cases=45000, size=300, enum=2, procs=16))],
+                 thorough=dict(cases=45000, size=300, enum=2, procs=16))] +
+            [pbt("c11_encodings", name="c11_encodings_cap%d" % i, env={"CARQUET_VERIF_CPU_CAP": m},
+                 quick=dict(cases=6000, size=150, procs=1), thorough=dict(cases=30000, size=300, procs=2)) for i, m in enumerate(_LOW_MASKS)],
     min_evaluations=dict(quick=20000, thorough=400000),
 )
 
@@ -59,9 +62,13 @@ PROPS["C12"] = dict(
           "delta block, a delta width > 32 or a non-byte-multiple width. Distinct = FNV-1a-64 of the serialised case."),
     assumptions=["the reference codecs in ref/enc_ref.hpp implement the Parquet encodings specification",
                  "INT32 delta streams are compared modulo 2^32 (both delta conventions decode to the same values)"],
+    # the encoders and decoders go through the SIMD dispatcher: the same cases are also run with the dispatcher capped to the
+    # lower ISA levels (hook CARQUET_VERIF_CPU_CAP), which this host would otherwise never select
     engines=[pbt("c12_spec",
                  quick=dict(cases=25000, size=150, procs=4),
-                 thorough=dict(cases=50000, size=300, procs=16))],
+                 thorough=dict(cases=50000, size=300, procs=16))] +
+            [pbt("c12_spec", name="c12_spec_cap%d" % i, env={"CARQUET_VERIF_CPU_CAP": m},
+                 quick=dict(cases=8000, size=150, procs=1), thorough=dict(cases=40000, size=300, procs=2)) for i, m in enumerate(_LOW_MASKS)],
     min_evaluations=dict(quick=20000, thorough=400000),
 )
 
@@ -81,9 +88,9 @@ PROPS["C07"] = dict(
     rule=("evaluations count generated cases. Non-trivial: threads - num_threads != 1 and at least two projected columns hold pages (so two workers load pages in the same "
           "call); independent / first_use - at least two concurrent readers on a file with at least one page."),
     assumptions=["the OS scheduler decides the actual interleaving; the delay script only biases it"],
-    engines=[pbt("c07_parallel", variant="omp", libs=["rapidcheck", "snappy", "lz4"], ldflags=["-Wl,--wrap=fseek,--wrap=fread"], name="c07_parallel_gomp", confirm_tries=12,
+    engines=[pbt("c07_parallel", variant="omp", libs=["rapidcheck", "snappy", "lz4"], ldflags=["-Wl,--wrap=fseek,--wrap=fread"], name="c07_parallel_gomp", confirm_tries=12, fork_shrink=False,
                  quick=dict(cases=150, size=60, procs=6), thorough=dict(cases=3000, size=100, procs=8)),
-             pbt("c07_parallel", variant="ompasan", libs=["rapidcheck", "snappy", "lz4"], ldflags=["-Wl,--wrap=fseek,--wrap=fread"], name="c07_parallel_libomp_asan", confirm_tries=12,
+             pbt("c07_parallel", variant="ompasan", libs=["rapidcheck", "snappy", "lz4"], ldflags=["-Wl,--wrap=fseek,--wrap=fread"], name="c07_parallel_libomp_asan", confirm_tries=12, fork_shrink=False,
                  quick=dict(cases=60, size=60, procs=6), thorough=dict(cases=1200, size=100, procs=8))],
     min_evaluations=dict(quick=600, thorough=15000),
 )
@@ -401,6 +408,10 @@ PROPS["C05"] = dict(
     engines=[pbt("c01_roundtrip", libs=_W_LIBS, only="structure", name="c05_structure", quick=dict(cases=1200, size=60, procs=8), thorough=dict(cases=15000, size=100, procs=16))],
     min_evaluations=dict(quick=3000, thorough=150000),
 )
+# C05, last sentence (byte-identical output, no uninitialised bytes): the same write history under polluted heaps, in the
+# non-sanitizer build where glibc hands freed blocks back unchanged
+PROPS["C05"]["engines"].append(pbt("c01_roundtrip", variant="prod", libs=_W_LIBS, only="determinism", name="c05_determinism_polluted_heap",
+                                   quick=dict(cases=2500, size=60, procs=4), thorough=dict(cases=40000, size=100, procs=8)))
 PROPS["C16"]["engines"].append(pbt("c01_roundtrip", libs=_W_LIBS, only="page_stats", name="c16_page_stats", quick=dict(cases=250, size=60, procs=4), thorough=dict(cases=5000, size=100, procs=8)))
 
 PROPS["C14"] = dict(
